@@ -1,7 +1,10 @@
 package props
 
 import (
+	"bytes"
+	"encoding/base64"
 	"encoding/binary"
+	"encoding/hex"
 	"encoding/json"
 	"fmt"
 	ccpb "github.com/google/go-tdx-guest/proto/checkconfig"
@@ -166,7 +169,9 @@ func quoteField(q *ref.Quote, name string) []byte {
 	return nil
 }
 
-var optKinds = []string{"nil", "empty", "equal", "first-differs", "last-differs", "random-differs", "byte-8-differs", "byte-15-differs", "byte-9-from-end-differs", "middle-byte-differs", "one-short", "one-long", "all-zero", "double", "plus-256", "plus-512", "plus-65536"}
+var optKinds = []string{"nil", "empty", "equal", "first-differs", "last-differs", "random-differs", "byte-8-differs", "byte-15-differs", "byte-9-from-end-differs", "middle-byte-differs", "one-short", "one-long", "all-zero", "double", "plus-256", "plus-512", "plus-65536",
+	// what people paste into a policy: the value as text (hex digits, with a prefix, a placeholder) — bytes of another size, and so not the field
+	"text-hex-of-actual", "text-hex-upper-of-actual", "text-0x-hex-of-actual", "text-0X-hex-of-actual", "text-algorithm-prefixed-hex", "text-placeholder", "text-letters", "text-base64-of-actual", "text-colon-separated-hex"}
 
 // variant derives an option value of the given kind from the quote's actual value.
 func variant(r *mrand.Rand, kind string, actual []byte) []byte {
@@ -197,6 +202,28 @@ func variant(r *mrand.Rand, kind string, actual []byte) []byte {
 		c = make([]byte, len(c))
 	case "double":
 		c = append(c, c...)
+	case "text-hex-of-actual":
+		c = []byte(hex.EncodeToString(c))
+	case "text-hex-upper-of-actual":
+		c = []byte(strings.ToUpper(hex.EncodeToString(c)))
+	case "text-0x-hex-of-actual":
+		c = []byte("0x" + hex.EncodeToString(c))
+	case "text-0X-hex-of-actual":
+		c = []byte("0X" + hex.EncodeToString(c))
+	case "text-algorithm-prefixed-hex":
+		c = []byte("sha384:" + hex.EncodeToString(c))
+	case "text-placeholder":
+		c = []byte("<fill in the " + strings.Repeat("expected value of this field ", 1+len(c)/10) + ">")
+	case "text-letters":
+		c = bytes.Repeat([]byte("x"), 2*len(c)+r.Intn(9))
+	case "text-base64-of-actual":
+		c = []byte(base64.StdEncoding.EncodeToString(c) + strings.Repeat("=", len(c))) // (padded beyond twice the size)
+	case "text-colon-separated-hex":
+		var parts []string
+		for _, b := range c {
+			parts = append(parts, fmt.Sprintf("%02x", b))
+		}
+		c = []byte(strings.Join(parts, ":"))
 	case "plus-256", "plus-512", "plus-65536": // lengths that equal the right one modulo 2^8 / 2^16: the actual value followed by zeros
 		var n int
 		fmt.Sscanf(kind, "plus-%d", &n)
